@@ -335,6 +335,54 @@ def perturb_compiled(M, rec, rng, g, desc, pars, case):
                                   {"desc": desc, "pars": pars, "vals": vals, "output": list(ok), "input": list(ik)})
 
 
+def kind_with_a_nominal_state(M, rec, rng, reps):
+    """A user link kind that completes the mapping `init_vars` hands it with its own nominal state, in a corridor stepped
+    through `Network.step` with partial initial conditions (origin only): every link starts from ITS nominal state, and the
+    last link's next state does not move when the first link's nominal state does (they are not neighbours)."""
+    from vf import userkinds as UK
+
+    NE, CE = drive.engines(M)
+    for it in range(reps):
+        k_ = rng.choice((3, 4))
+        nodes = [M.Node(name=f"N{i}") for i in range(k_ + 1)]
+        links = []
+        for i in range(k_):
+            N_ = rng.choice((1, 2, 3))
+            links.append(UK.NominalLink(N_, 2, 1.0, 180.0, 33.5, 102.0, 1.867, name=f"L{i}",
+                                        nominal_rho=np.array([rng.uniform(10.0, 60.0) for _ in range(N_)]), nominal_v=np.array([rng.uniform(40.0, 100.0) for _ in range(N_)])))
+        path = [nodes[0]]
+        for i in range(k_):
+            path += [links[i], nodes[i + 1]]
+        org = M.MainstreamOrigin(name="O")
+        net = M.Network().add_path(tuple(path), origin=org, destination=M.Destination(name="D"))
+        kw = dict(T=10 / 3600, tau=18 / 3600, eta=60.0, kappa=40.0)
+        ic = lambda: {org: {"w": np.array([5.0]), "d": np.array([2500.0]), "v_ctrl": np.array([300.0])}}  # noqa: E731
+        try:
+            eng = NE()
+            net.step(init_conditions=(ic() if it % 2 else {org: {}}), engine=eng, **kw)
+            shared = [(a_.name, b_.name) for i_, a_ in enumerate(links) for b_ in links[i_ + 1:] if any(a_.states[n_] is b_.states[n_] for n_ in ("rho", "v"))]
+            if shared:
+                rec.count("nominal_state_kind_steps")
+                rec.violation(f"{PROP}:user kind completing its init mapping: after a Network.step with partial initial conditions two links hold the very same state variables",
+                              {"links": shared[:3]})
+                continue
+            own = all(np.array_equal(np.asarray(l_.states["rho"], float).ravel(), l_.nominal_rho) for l_ in links)
+            r1 = [np.asarray(links[-1].next_states[n_], float).copy() for n_ in ("rho", "v")]
+            links[0].nominal_rho = links[0].nominal_rho + 25.0
+            net.step(init_conditions=ic(), engine=eng, **kw)
+            r2 = [np.asarray(links[-1].next_states[n_], float).copy() for n_ in ("rho", "v")]
+        except Exception as e:
+            rec.violation(f"{PROP}:user kind completing its init mapping: stepping raised {type(e).__name__}", {"exception": repr(e)[:300]})
+            continue
+        rec.count("nominal_state_kind_steps")
+        if not own:
+            rec.violation(f"{PROP}:user kind completing its init mapping: after a Network.step with partial initial conditions a link does not start from its own nominal state "
+                          "(another element's variables reached it)", {"links": k_})
+        elif not all(np.array_equal(a_, b_, equal_nan=True) for a_, b_ in zip(r1, r2)):
+            rec.violation(f"{PROP}:user kind completing its init mapping: the last link's next state moves with the nominal state of the first link (not a neighbour)",
+                          {"links": k_, "before": [x.tolist() for x in r1], "after": [x.tolist() for x in r2]})
+
+
 def run(M, rec, tier, seed, k, n):
     np.seterr(all="ignore")
     rng = random.Random(seed * 1000 + k + 1000)
@@ -344,6 +392,7 @@ def run(M, rec, tier, seed, k, n):
 
     # node equations evaluated for K nodes / instants at once: a column never depends on another one
     batched.batched_primitives(M, rec, rng, PROP, 300 if tier == "quick" else 3000, which=batched.NODE_PRIMS)
+    kind_with_a_nominal_state(M, rec, rng, 24 if tier == "quick" else 240)
     for it in range(90 if tier == "quick" else 700):
         shape = next(sh)
         desc = g.all_kinds_network() if it % 6 == 0 else g.network(shape)[1]
